@@ -49,6 +49,15 @@ def render_block(block, path, indent) -> List[str]:
         elif k == "with":
             out.append(f"{pad}with ctx():")
             out += render_block(s["body"], me + [1], indent + 4)
+        elif k == "try":
+            out.append(f"{pad}try:")
+            out += render_block(s["body"], me + [1], indent + 4)
+            if s["handler"]:
+                out.append(f"{pad}except Exception:")
+                out += render_block(s["handler"], me + [3], indent + 4)
+            if s["final"]:
+                out.append(f"{pad}finally:")
+                out += render_block(s["final"], me + [4], indent + 4)
         else:
             if k == "if":
                 head = "if " + {"T": "True", "F": "False", "U": "u()"}[s["t"]] + ":"
@@ -68,7 +77,7 @@ def render(shape) -> str:
     return "def shape():\n" + "\n".join(render_block(shape, [], 4)) + "\n"
 
 
-class Stop(Exception):
+class Stop(BaseException):     # not caught by the `except Exception:` clauses of the shapes
     pass
 
 
@@ -88,9 +97,14 @@ def execute(code, tape: Tuple[int, ...], limit=400):
             return tape[pos[0] - 1]
         return 0
 
+    stopped = [False]
+
     def mark(p):
+        if stopped[0]:
+            return      # finally clauses that run while the cut-off propagates are not part of the behaviour
         trace.append(p)
         if len(trace) > 60:
+            stopped[0] = True
             raise Stop()
 
     class Ctx:
@@ -103,6 +117,7 @@ def execute(code, tape: Tuple[int, ...], limit=400):
     def tracer(frame, event, arg):
         steps[0] += 1
         if steps[0] > limit:
+            stopped[0] = True
             raise Stop()
         return tracer
 
@@ -195,27 +210,60 @@ def reach_runs(t: str):
     leaves_q = '{"return", "raise", "break", "continue", "assertU", "assertF"}'
     if t == "quick":
         return [("depth1", dict(leaves=leaves_q, tests='{"T", "F", "U"}', iters='{"empty", "one", "U"}',
-                                comps='{"if", "while", "for", "with"}', depth=1, inloop="TRUE"), 7)]
+                                comps='{"if", "while", "for", "with", "try"}', depth=1, inloop="TRUE", tails='{"mark"}'), 7),
+                ("depth2-tails", dict(leaves='{"return", "break", "continue"}', tests='{"T", "U"}', iters='{"one", "U"}',
+                                      comps='{"if", "while", "for"}', depth=2, inloop="FALSE", tails='{"mark", "return", "raise"}'), 25),
+                ("depth2-try", dict(leaves='{"return", "break", "raise"}', tests='{"T", "U"}', iters='{"one"}',
+                                    comps='{"try", "while", "for", "with"}', depth=2, inloop="FALSE", tails='{"mark", "return"}'), 25)]
     return [("depth1", dict(leaves='{"return", "raise", "break", "continue", "assertU", "assertF", "assertT"}', tests='{"T", "F", "U"}',
-                            iters='{"empty", "one", "many", "U"}', comps='{"if", "while", "for", "with"}', depth=1, inloop="TRUE"), 3),
-            ("depth2", dict(leaves='{"return", "break", "continue", "raise"}', tests='{"T", "U"}', iters='{"empty", "U"}',
-                            comps='{"if", "while", "for"}', depth=2, inloop="FALSE"), 25)]
+                            iters='{"empty", "one", "many", "U"}', comps='{"if", "while", "for", "with", "try"}', depth=1, inloop="TRUE",
+                            tails='{"mark"}'), 3),
+            ("depth2-tails", dict(leaves='{"return", "break", "continue", "raise"}', tests='{"T", "F", "U"}', iters='{"empty", "one", "U"}',
+                                  comps='{"if", "while", "for", "with"}', depth=2, inloop="FALSE",
+                                  tails='{"mark", "return", "raise", "break", "continue"}'), 25),
+            ("depth2-try", dict(leaves='{"return", "break", "continue", "raise", "assertU"}', tests='{"T", "U"}', iters='{"one", "U"}',
+                                comps='{"try", "if", "while", "for", "with"}', depth=2, inloop="FALSE", tails='{"mark", "return", "raise"}'), 25)]
 
 
 # ---------------------------------------------------------------------------------------------
 CALLEE = {"const": "1", "name": "xs", "builtin": "len(xs)", "const_method": "'a'.upper()", "user_pure": "pure(1)",
           "user_impure": "impure(1)", "user_raises": "raises(1)", "unknown": "unknown_function(1)", "method": "xs.append(1)",
-          "walrus": "(w := 1)"}
+          "walrus": "(w := 1)", "user_cond_raise": "checked(1)", "user_branch_effect": "branchy(1)", "user_calls_impure": "wrapper(1)",
+          "user_global_write": "setter(1)", "ctor_plain": "Obj()", "ctor_impure": "Loud(1)", "shadowed_builtin": "sorted(xs)",
+          "map_impure": "list(map(impure, xs))", "sorted_key_impure": "sorted(xs, key=impure)", "next_user_gen": "next(gg)",
+          "user_lambda": "lam(1)"}
 CTX = {"top": "{c}", "binop": "{c} + 1" , "boolop": "xs and {c}", "compare": "{c} == 2", "call_arg": "len([{c}])",
        "comp_elt": "[{c} for _i in xs]", "comp_cond": "[_i for _i in xs if {c}]", "comp_iter": "[_i for _i in [{c}]]",
        "dictcomp_key": "{{{c}: 1 for _i in xs}}", "dictcomp_val": "{{_i: {c} for _i in xs}}", "ifexp_test": "1 if {c} else 2",
        "ifexp_branch": "{c} if xs else 2", "fstring": "f'{{{c}}}'", "lambda_body": "lambda: {c}", "subscript": "xs[0:{c}]",
-       "attribute": "({c}).real", "tuple": "({c}, 2)", "dict_value": "{{'k': {c}}}", "starred": "[*[{c}]]", "walrus": "{c}"}
+       "attribute": "({c}).real", "tuple": "({c}, 2)", "dict_value": "{{'k': {c}}}", "starred": "[*[{c}]]", "walrus": "{c}",
+       "slice_lower": "xs[{c}:]", "slice_step": "xs[::{c}]", "index": "dd.get({c})", "call_kwarg": "dict(k={c})", "call_star": "len(*[[{c}]])",
+       "format_spec": "f'{{1:{{{c}}}}}'", "unary": "-({c})", "not": "not {c}", "chained_compare": "0 < 1 < {c}", "set_elt": "{{{c}, 2}}",
+       "dict_key": "{{{c}: 1}}", "genexp_elt": "any({c} for _i in xs)", "comp_iter2": "[_j for _i in xs for _j in [{c}]]",
+       "lambda_default": "lambda a={c}: a", "subscript_value": "[{c}][0]", "nested_ifexp": "1 if xs else (2 if {c} else 3)"}
 FORM = {"expr": "{e}", "assign": "zz = {e}", "throwaway": "_ = {e}", "attrset": "obj.a = {e}", "itemset": "dd[0] = {e}",
         "augassign": "nn += {e}", "annassign": "zz: int = {e}", "del": "del nn", "assert": "assert {e}", "raise": "raise Boom",
-        "return": "return {e}", "yield": "yield {e}"}
+        "return": "return {e}", "yield": "yield {e}",
+        "for_body": "for _ in xs:\n        {e}", "for_else": "for _ in xs:\n        pass\n    else:\n        {e}",
+        "for_iter": "for _ in {e}:\n        pass", "for_bind": "for zz in xs:\n        {e}",
+        "if_test": "if {e}:\n        pass", "if_body": "if xs:\n        {e}", "if_else": "if not xs:\n        pass\n    else:\n        {e}"}
+# the call that must survive when the statement is not pointless (the statement may be rewritten around it)
+NEEDLE = {"user_pure": "pure(", "user_impure": "impure(", "user_raises": "raises(", "unknown": "unknown_function(", "method": ".append(",
+          "user_cond_raise": "checked(", "user_branch_effect": "branchy(", "user_calls_impure": "wrapper(", "user_global_write": "setter(",
+          "ctor_plain": "Obj(", "ctor_impure": "Loud(", "shadowed_builtin": "sorted(", "map_impure": "impure", "sorted_key_impure": "impure",
+          "next_user_gen": "next(", "user_lambda": "lam("}
 PRELUDE = ("class Boom(Exception):\n    pass\n\n\nclass Obj:\n    pass\n\n\ndef pure(v):\n    return v + 1\n\n\n"
            "def impure(v):\n    print('impure', v)\n    return v\n\n\ndef raises(v):\n    raise Boom()\n\n\n")
+EXTRA = {
+    "user_cond_raise": "def checked(v):\n    if v > 0:\n        raise Boom()\n    else:\n        return v\n\n\n",
+    "user_branch_effect": "def branchy(v):\n    if v:\n        print('branchy')\n        return 1\n    else:\n        return 2\n\n\n",
+    "user_calls_impure": "def wrapper(v):\n    return impure(v)\n\n\n",
+    "user_global_write": "STATE = []\n\n\ndef setter(v):\n    STATE.append(v)\n    return v\n\n\n",
+    "ctor_impure": "class Loud:\n    def __init__(self, v):\n        print('loud', v)\n\n\n",
+    "shadowed_builtin": "def sorted(v):\n    print('my sorted')\n    return list(v)\n\n\n",
+    "user_lambda": "lam = lambda v: print('lam', v)\n\n\n",
+    "next_user_gen": "def gen_fn():\n    print('gen started')\n    yield 1\n    print('gen resumed')\n    yield 2\n\n\n",
+}
 
 
 def _effects_chunk(records):
@@ -227,14 +275,19 @@ def _effects_chunk(records):
     for rec in records:
         e = CTX[rec["ctx"]].format(c=CALLEE[rec["callee"]])
         stmt = FORM[rec["form"]].format(e=e)
-        body = f"    xs = [1, 2]\n    nn = 1\n    dd = {{}}\n    obj = Obj()\n    mark('before')\n    {stmt}\n    mark('after')\n"
+        body = f"    xs = [1, 2]\n    nn = 1\n    dd = {{}}\n    obj = Obj()\n"
+        if rec["callee"] == "next_user_gen":
+            body += "    gg = gen_fn()\n"
+        body += f"    mark('before')\n    {stmt}\n    mark('after')\n"
+        if rec["callee"] == "next_user_gen":
+            body += "    print(list(gg))\n"
         if rec["callee"] == "walrus" and rec["ctx"] != "lambda_body" and rec["form"] not in ("return", "raise", "yield"):
             body += "    return (xs, nn, dd, obj, w)\n"        # the binding made by := is observable
-        elif rec["form"] in ("assign", "annassign"):
+        elif rec["form"] in ("assign", "annassign", "for_bind"):
             body += "    return (xs, nn, dd, obj, zz)\n"       # the binding is observable
         elif rec["form"] not in ("return", "raise"):
             body += "    return (xs, nn, dd, obj)\n"
-        text = PRELUDE + "def target():\n" + body + "\n\ntry:\n    print(target())\nexcept Boom:\n    print('boom')\n"
+        text = PRELUDE + EXTRA.get(rec["callee"], "") + "def target():\n" + body + "\n\ntry:\n    print(target())\nexcept Boom:\n    print('boom')\n"
         try:
             compile(text, "<effects>", "exec")
         except SyntaxError:
@@ -242,7 +295,8 @@ def _effects_chunk(records):
             continue
         st["effect_cases"] += 1
         for rname, fn in (("fixes.delete_pointless_statements", fixes.delete_pointless_statements),
-                          ("format_code", lambda s: mods["main"].format_code(s, preserve=frozenset({"target", "pure", "impure", "raises", "Boom", "Obj"})))):
+                          ("format_code", lambda s: mods["main"].format_code(s, preserve=frozenset({"target", "pure", "impure", "raises", "Boom", "Obj", "checked", "branchy", "wrapper", "setter", "STATE",
+                                                                                                "Loud", "sorted", "lam", "gen_fn"})))):
             try:
                 out = fn(text)
             except Exception as exc:
@@ -266,7 +320,10 @@ def _effects_chunk(records):
                     continue
                 if inside:
                     seg.append(src)
-            if seg:
+            needle = NEEDLE.get(rec["callee"])
+            if needle is not None and needle not in stmt:
+                needle = None
+            if seg and (rec["pointless"] or needle is None or any(needle in x for x in seg)):
                 continue
             st["effect_deletions"] += 1
             if rec["pointless"]:
@@ -276,7 +333,7 @@ def _effects_chunk(records):
 
 
 def effects_part(rep: Report, mods, t: str, known, stats):
-    forms = '{"expr", "assign", "throwaway", "attrset", "itemset", "augassign", "annassign", "del", "assert", "raise", "return", "yield"}'
+    forms = "{" + ", ".join(f'"{c}"' for c in FORM) + "}"
     ctxs = "{" + ", ".join(f'"{c}"' for c in CTX if c != "walrus") + "}"
     callees = "{" + ", ".join(f'"{c}"' for c in CALLEE) + "}"
     cfg = "\n".join(["CONSTANTS", f"  Forms = {forms}", f"  Ctxs = {ctxs}", f"  Callees = {callees}", "INIT Init", "NEXT Next",
@@ -316,7 +373,7 @@ def main(argv=None) -> int:
     known = rep.known_entries()
     for label, c, with_pipeline in reach_runs(t):
         cfg = "\n".join(["CONSTANTS", f"  Leaves = {c['leaves']}", f"  Tests = {c['tests']}", f"  Iters = {c['iters']}",
-                         f"  Compounds = {c['comps']}", f"  Depth = {c['depth']}", f"  InLoop = {c['inloop']}", "  MaxIter = 2",
+                         f"  Compounds = {c['comps']}", f"  Depth = {c['depth']}", f"  InLoop = {c['inloop']}", f"  Tails = {c['tails']}", "  MaxIter = 2",
                          "INIT Init", "NEXT Next", "INVARIANT Report", "INVARIANT Announce",
                          "CHECK_DEADLOCK FALSE", ""])
         res = run_tlc("Reach", cfg, timeout_s=3000, keep_stdout=False, heap_gb=12)
